@@ -61,16 +61,21 @@ def union_fold(tiers, pj):
         return {"st": type(ex).__name__, "ret": T.NONE}
 
 
-def run_vector(vec, emb, pool, eid, recv=None):
+def run_vector(vec, emb, pool, eid, recv=None, argt_obj=None):
+    """argt_obj: a tier object the caller has handed to the textgrid before; vec["argt"] is then the value it had when it was
+    built - to the caller it still denotes that tier"""
     textgrid, errors, _ = T.praatio()
     pj = T.Proj(emb, pool)
     g = emb.g
     if recv is None:
         recv = mk_tg(vec["pre"], emb, pool, primed=(eid % 4 == 1))
-    argt = T.mk_tier(vec["argt"], emb, pool) if vec["argt"]["kind"] != "none" else None
+    if argt_obj is not None:
+        argt = argt_obj
+    else:
+        argt = T.mk_tier(vec["argt"], emb, pool) if vec["argt"]["kind"] != "none" else None
     argtg = mk_tg(vec["argtg"], emb, pool) if vec["argtg"]["lo"] != -2 else None
     pre = proj_tg(pj, recv)
-    argtpre = pj.tier(argt)
+    argtpre = pj.tier(argt) if argt_obj is None else vec["argt"]
     argtgpre = proj_tg(pj, argtg)
     op, a = vec["op"], vec["args"]
     each = []
@@ -336,6 +341,7 @@ def map_histories(nhist, seed, start_id, maxlen=10):
     textgrid = T.praatio()[0]
     for h in range(nhist):
         live = textgrid.Textgrid() if rng.random() < 0.5 else textgrid.Textgrid(0.0, emb.g(32))
+        handed = []                      # (tier object, its value when built): tiers this caller has handed over before
         for step in range(rng.randint(2, maxlen)):
             pj = T.Proj(emb, pool)
             pre = proj_tg(pj, live)
@@ -360,14 +366,22 @@ def map_histories(nhist, seed, start_id, maxlen=10):
                 args = {"name": rng.choice(names)}
             elif r < 0.8:
                 op = "renameTier"
-                args = {"old": rng.choice(names), "new": rng.choice(names)}
+                present = [t["name"] for t in pre["tiers"]]
+                args = {"old": rng.choice(present) if present and rng.random() < 0.7 else rng.choice(names), "new": rng.choice(names)}
             else:
                 op = "replaceTier"
                 argt = new_tier(rng.choice(names))
                 args = {"name": rng.choice(names), "mode": rng.choice(["silence", "warning", "error", "error", "bogus"])}
+            obj = None
+            if argt is not T.NONE:
+                if handed and rng.random() < 0.4:
+                    obj, argt = rng.choice(handed)          # the same tier object again
+                else:
+                    obj = T.mk_tier(argt, emb, pool)
+                    handed.append((obj, argt))
             vec = {"op": op, "args": args, "pre": pre, "argt": argt, "argtg": NOTG}
             try:
-                ev, _ = run_vector(vec, emb, pool, eid, recv=live)
+                ev, _ = run_vector(vec, emb, pool, eid, recv=live, argt_obj=obj)
             except common.MachineryError:
                 raise
             except Exception as ex:  # noqa
